@@ -97,23 +97,34 @@ class KaniProp:
             self.oracle_ok = n
             log("[%s] oracle validated against %d vectors of the repo's test suite" % (pid, n))
         jobs = args.jobs or min(engine.NCPU, len(mine))
-        cap = self.quick_cap_s if tier == "quick" else self.thorough_cap_s
+        # quick: a calibrated whitelist, every instance must reach a verdict within the cap.
+        # thorough: a wall-clock budget (VERIF_THOROUGH_BUDGET_S, default 40 min) for starting instances and a cap per
+        # instance; what is not started in time, runs out of time or out of memory is reported as NOT EXPLORED in the
+        # evidence and neither passes nor fails (exit 0 speaks for what was explored, as the interface defines it)
+        budget = int(os.environ.get("VERIF_THOROUGH_BUDGET_S", "2400"))
+        per = None if tier == "quick" else int(os.environ.get("VERIF_THOROUGH_INSTANCE_CAP_S", "1200"))
+        cap = self.quick_cap_s if tier == "quick" else min(self.thorough_cap_s, budget)
         names = [i.name for i in mine]
         log("[%s] %d harness instances, -j %d, cap %ds" % (pid, len(names), jobs, cap))
         try:
             pre = lambda sm: self.gen_mod.write_gen(sc, tier, small=sm)
             results, wall, logp = engine.run_kani(sc, self.package, mine, jobs, cap, small=self.small,
-                                                  extra_args=self.extra_args, mem_cap_gb=self.mem_cap_gb, pre_codegen=pre)
+                                                  extra_args=self.extra_args, mem_cap_gb=self.mem_cap_gb, pre_codegen=pre,
+                                                  per_harness_timeout_s=per)
         except engine.BuildError as e:
             print("BUILD-ERROR (inconclusive):\n%s" % e)
             self._evidence(pid, tier, seed, mine, {}, t0, 0, [], ["build error"])
             return 2
         inconclusive = []
+        self.not_explored = []
         violations = []   # (inst, desc, replay_path)
         known = []
         kf = engine.load_known_findings()
         for inst in mine:
             r = results[inst.name]
+            if tier != "quick" and (r.status == "timeout" or (r.status == "error" and "killed" in (getattr(r, "note", "") or ""))):
+                self.not_explored.append("%s: %s (%s)" % (inst.name, r.status, getattr(r, "note", "") or "instance cap / budget"))
+                continue
             if r.status in ("timeout", "error", "missing", "unwind"):
                 inconclusive.append("%s: %s" % (inst.name, r.status))
                 continue
@@ -322,6 +333,7 @@ class KaniProp:
             "solver_time_s": round(solver_s, 1),
             "solver": "CBMC 6.11 / CaDiCaL via Kani 0.68",
             "inconclusive": inconclusive,
+            "not_explored": getattr(self, "not_explored", []),
             "covers_never_satisfied": unsat_covers,
             "known_findings_reproduced": [k[0]["id"] for k in known],
             "partial_run": partial,
@@ -525,7 +537,7 @@ class MirDropProp:
             return 2
         for fn, dbg, steps, probe in self.TARGETS:
             if tier == "thorough":
-                steps = steps * 2
+                steps = steps * 2 if fn == "push" else steps + 30   # (extend: 90 steps take z3 about 2 min, 120 about 8)
             try:
                 key = [k for k in fs if k.endswith("::" + fn) and "boxcar" in k and "impl at" in k]
                 if len(key) != 1:
